@@ -25,4 +25,17 @@ CHECKS = {
             {"name": "fuzz", "pkg": "./c04", "fuzz": "FuzzMatchers", "fuzztime": {"thorough": "600s"}, "tiers": ("thorough",)},
         ],
     },
+    "C18": {
+        "rule": ("byte strings of every length 0..max+3 around each codec's size bounds (enumerated) plus rapid-drawn lengths with random and "
+                 "structure-shaped content (valid opcode, consistent trailing length, chunked winbox bodies with surplus/missing bytes); "
+                 "messages with fields over their full ranges for serialise-then-parse. 16 parser/serialiser pairs. Non-trivial = input "
+                 "accepted (round trip exercised) or length within 3 of a bound; distinct = distinct (codec, bytes)."),
+        "assumptions": ["winbox: no upper length bound is asserted (the protocol documents none); RDPToken/MessageTransport are variable-length by definition"],
+        "min_classes": {"quick": {"C18/accepted": 5000, "C18/message-roundtrip": 1000}},
+        "runs": [
+            {"name": "replay+rapid", "pkg": "./c18", "run": ".", "rapid_checks": {"quick": 3000, "thorough": 200000},
+             "shards": {"quick": 1, "thorough": 16}, "timeout": {"quick": 600, "thorough": 7200}},
+            {"name": "fuzz", "pkg": "./c18", "fuzz": "FuzzCodecs", "fuzztime": {"thorough": "300s"}, "tiers": ("thorough",)},
+        ],
+    },
 }
